@@ -7840,3 +7840,38 @@ func ruleEveryCandidateFiltered(r *Run) {
 	}
 	r.check(n >= 2 && nF >= 1, "findMatch:filter", fmt.Sprintf("%d recursive calls in loops, %d filter loops", n, nF), "anchor not found: rule needs review", w.fpos(f))
 }
+
+// ---------------------------------------------------------------------------------------------
+// R5.23 — a present value is never read back as nil
+
+func init() {
+	register(ruleDef{ID: "R5.23", Prop: "C05", Tier: "quick", Floor: 4,
+		Title: "a present value is never read back as nil: in the Badger engine every copy of an item's value out of a transaction (Item.ValueCopy) is given a non-nil destination — with a nil destination an empty stored value comes back as nil, which every caller of Get and every range callback takes for 'no such key', so the key is listed but not found",
+		Fn:    rulePresentValueNotNil})
+}
+
+func rulePresentValueNotNil(r *Run) {
+	w := r.W
+	n := 0
+	for _, f := range w.RepoFuncs {
+		if len(f.Blocks) == 0 || relPkg(pkgPathOf(f)) != "storage/badger" || isTestFunc(w, f) {
+			continue
+		}
+		k := 0
+		for _, c := range calls(f) {
+			if methodNameOf(c) != "ValueCopy" {
+				continue
+			}
+			args := c.Common().Args
+			if len(args) == 0 {
+				continue
+			}
+			n++
+			k++
+			dst := args[len(args)-1]
+			r.check(!isNilConst(dst), fmt.Sprintf("%s:ValueCopy#%d:non-nil-destination", fname(f), k), "the copy gets a non-nil destination",
+				"the item's value is copied with a nil destination: an empty stored value is returned as nil, and the callers read nil as 'no such key' — the key appears in listings but its point read answers not found", w.pos(c.Pos()))
+		}
+	}
+	r.check(n >= 4, "badger:value-copies", fmt.Sprintf("%d", n), "too few: rule needs review", "-")
+}
